@@ -20,6 +20,8 @@ def run(chk):
     chk.configs = cfgs
     chk.rule("OUTPUT.reset", "every ClipperOffset::Execute overload empties the caller's container before offset paths are appended to it (directly or through the `solution` "
              "pointer): the result is the offset of the input, not united with what the container held")
+    chk.rule("OPTIONS.forwarded", "InflatePaths binds each of its options to the ClipperOffset constructor parameter of the same name (miter_limit and arc_tolerance "
+             "are both doubles: the compiler cannot tell them apart)")
     chk.rule("EMIT.every-path", "OffsetPolygon, OffsetOpenJoined and OffsetOpenPath append a contour to the solution on every path through them (must-pass "
              "dataflow over the structured CFG, sibling calls resolved by fix-point): no path handed to them is dropped by a shortcut")
     chk.rule("THRESHOLD.bisector", "the length below which NormalizeVector gives up (AlmostZero's epsilon) is not above the shortest bisector sum DoSquare can see, "
@@ -52,6 +54,7 @@ def run(chk):
         e12.join_dispatch_table(db, chk, cfg)
         e12.bisector_threshold_rule(db, chk, cfg)
         e12.emit_every_path_rule(db, chk, cfg)
+        e12.inflate_options_rule(db, chk, cfg)
         from ..engines import e10_pipeline as _e10o
         _e10o.rule_outputs_reset(db, chk, cfg, db.find("ClipperOffset::Execute"))
         # the orientation-corrected delta: only the functions that derive group_delta_ read the caller's delta_
